@@ -162,6 +162,7 @@ macro_rules! decl_common {
             #[link_name = concat!("oxidd_", $k, "_manager_add_named_vars")] pub fn manager_add_named_vars(manager: mgr_t, names: *const *const c_char, count: VarNo) -> duplicate_var_name_result_t;
             #[link_name = concat!("oxidd_", $k, "_manager_add_named_vars_iter")] pub fn manager_add_named_vars_iter(manager: mgr_t, iter: iter<str_t>) -> duplicate_var_name_result_t;
             #[link_name = concat!("oxidd_", $k, "_manager_var_name")] pub fn manager_var_name(manager: mgr_t, var: VarNo, len: Option<&mut std::mem::MaybeUninit<usize>>) -> *const c_char;
+            #[link_name = concat!("oxidd_", $k, "_manager_with_var_name")] pub fn manager_with_var_name(manager: mgr_t, var: VarNo, callback: extern "C" fn(*mut c_void, *const c_char, usize) -> *mut c_void, data: *mut c_void) -> *mut c_void;
             #[link_name = concat!("oxidd_", $k, "_manager_set_var_name")] pub fn manager_set_var_name(manager: mgr_t, var: VarNo, name: *const c_char, len: usize) -> VarNo;
             #[link_name = concat!("oxidd_", $k, "_manager_name_to_var")] pub fn manager_name_to_var(manager: mgr_t, name: *const c_char, len: usize) -> VarNo;
             #[link_name = concat!("oxidd_", $k, "_manager_var_to_level")] pub fn manager_var_to_level(manager: mgr_t, var: VarNo) -> LevelNo;
@@ -172,6 +173,7 @@ macro_rules! decl_common {
             #[link_name = concat!("oxidd_", $k, "_manager_import_dddmp")] pub fn manager_import_dddmp(manager: mgr_t, file: &mut dddmp_file_t, support_vars: *const VarNo, roots: *mut fn_t, error: *mut error_t) -> bool;
             #[link_name = concat!("oxidd_", $k, "_manager_export_dddmp")] pub fn manager_export_dddmp(manager: mgr_t, path: *const c_char, path_len: usize, functions: *const fn_t, num_functions: usize, function_names: *const *const c_char, settings: Option<&dddmp_export_settings_t>, error: *mut error_t) -> bool;
             #[link_name = concat!("oxidd_", $k, "_manager_export_dddmp_iter")] pub fn manager_export_dddmp_iter(manager: mgr_t, path: *const c_char, path_len: usize, functions: iter<fn_t>, settings: Option<&dddmp_export_settings_t>, error: *mut error_t) -> bool;
+            #[link_name = concat!("oxidd_", $k, "_manager_export_dddmp_with_names_iter")] pub fn manager_export_dddmp_with_names_iter(manager: mgr_t, path: *const c_char, path_len: usize, functions: iter<named<fn_t>>, settings: Option<&dddmp_export_settings_t>, error: *mut error_t) -> bool;
             #[link_name = concat!("oxidd_", $k, "_manager_dump_all_dot_path")] pub fn manager_dump_all_dot_path(manager: mgr_t, path: *const c_char, path_len: usize, functions: *const fn_t, function_names: *const *const c_char, num_function_names: usize, error: *mut error_t) -> bool;
             #[link_name = concat!("oxidd_", $k, "_manager_dump_all_dot_path_iter")] pub fn manager_dump_all_dot_path_iter(manager: mgr_t, path: *const c_char, path_len: usize, functions: iter<named<fn_t>>, error: *mut error_t) -> bool;
             #[link_name = concat!("oxidd_", $k, "_var")] pub fn var(manager: mgr_t, var: VarNo) -> fn_t;
@@ -300,6 +302,12 @@ pub struct Api {
     pub manager_add_named_vars_iter: unsafe extern "C" fn(mgr_t, iter<str_t>) -> duplicate_var_name_result_t,
     pub manager_var_name:
         unsafe extern "C" fn(mgr_t, VarNo, Option<&mut std::mem::MaybeUninit<usize>>) -> *const c_char,
+    pub manager_with_var_name: unsafe extern "C" fn(
+        mgr_t,
+        VarNo,
+        extern "C" fn(*mut c_void, *const c_char, usize) -> *mut c_void,
+        *mut c_void,
+    ) -> *mut c_void,
     pub manager_set_var_name: unsafe extern "C" fn(mgr_t, VarNo, *const c_char, usize) -> VarNo,
     pub manager_name_to_var: unsafe extern "C" fn(mgr_t, *const c_char, usize) -> VarNo,
     pub manager_var_to_level: unsafe extern "C" fn(mgr_t, VarNo) -> LevelNo,
@@ -324,6 +332,14 @@ pub struct Api {
         *const c_char,
         usize,
         iter<fn_t>,
+        Option<&dddmp_export_settings_t>,
+        *mut error_t,
+    ) -> bool,
+    pub manager_export_dddmp_with_names_iter: unsafe extern "C" fn(
+        mgr_t,
+        *const c_char,
+        usize,
+        iter<named<fn_t>>,
         Option<&dddmp_export_settings_t>,
         *mut error_t,
     ) -> bool,
@@ -411,6 +427,7 @@ macro_rules! common_table {
             manager_add_named_vars: $m::manager_add_named_vars,
             manager_add_named_vars_iter: $m::manager_add_named_vars_iter,
             manager_var_name: $m::manager_var_name,
+            manager_with_var_name: $m::manager_with_var_name,
             manager_set_var_name: $m::manager_set_var_name,
             manager_name_to_var: $m::manager_name_to_var,
             manager_var_to_level: $m::manager_var_to_level,
@@ -421,6 +438,7 @@ macro_rules! common_table {
             manager_import_dddmp: $m::manager_import_dddmp,
             manager_export_dddmp: $m::manager_export_dddmp,
             manager_export_dddmp_iter: $m::manager_export_dddmp_iter,
+            manager_export_dddmp_with_names_iter: $m::manager_export_dddmp_with_names_iter,
             manager_dump_all_dot_path: $m::manager_dump_all_dot_path,
             manager_dump_all_dot_path_iter: $m::manager_dump_all_dot_path_iter,
             var: $m::var,
